@@ -18,6 +18,8 @@ RULE = (
     '(comparison purely relative); labels re-checked on re-evaluated matrices, on two-row categorical batches, '
     'on new frames with unseen levels in silent mode, and again after printing every matrix and building the '
     'same formula on another frame. '
+    'Later: near-duplicate level names, numeric levels with seven digits, levels= leaving out a value of the '
+    "data, the caller's copies (np.array, as_dataframe) overwritten between the two verifications. "
 )
 ASSUMPTIONS = [
     "label semantics (name[level], ':' product, 'e|g[l]') as documented; only treatment-coded pieces are interpreted",
